@@ -352,3 +352,17 @@ Theorem C02_sized_wf :
              (by_value_acyclicb r s = true <-> forall n p, ~ walk (item_edge s m) n p p)).
 Proof. exact sized_wf. Qed.
 Print Assumptions C02_sized_wf.
+
+(** ** the run-time checker [sizedb] (Checkers/Sem.v) is sound for its own by-value successor
+    function (Proofs/SizedbSound.v): on EVERY parsed module, the verdict [true] of the depth-first
+    search means that no walk along [byval_succ] (with the exposure table the checker computes)
+    returns to its start.  A statement about the checker, not about the generator. *)
+From V Require Import Proofs.SizedbSound.
+Theorem C02_sizedb_sound :
+  forall root alloc compact cut_heap m,
+  sizedb root alloc compact cut_heap m = true ->
+  forall n p,
+    ~ walk (fun a b => In b (byval_succ root alloc compact cut_heap m
+                                        (exposure root alloc compact cut_heap m) a)) n p p.
+Proof. exact sizedb_sound. Qed.
+Print Assumptions C02_sizedb_sound.
